@@ -301,7 +301,7 @@ CHECKS["C09"] = mk_simple("C09", "text_conf", "parse() accepts exactly well-form
     ["C09:boundary-product:accept", "C09:boundary-product:reject", "C09:specifier-boundaries:accept", "C09:specifier-boundaries:reject", "C09:edit-replace:reject", "C09:edit-delete:accept", "C09:zone-interaction:accept", "C09:zone-interaction:reject", "C09:zone-transition:accept", "C09:zone-transition-leap60:accept", "C09:safety-panel"],
     TEXT_NOTE, min_eval=150000)
 CHECKS["C18"] = mk_simple("C18", "subsecond", "sub-second time points floor toward the past",
-    "duration panel {int64 ns/us/ms/(1/3 s)/fs; int64 s; int32 min, h; int16 s, min; int8 s, min}: EVERY value of the int8/int16 representations; [-1e5,1e5] and both limits -+1000 for int32; for int64 sub-second reps whole seconds {-2,-1,0,1,+-59,+-60,+-3599..3601,+-86400,+-2^31, limits -+2..4} x remainders {0,1,2,ratio/2-1..+1,ratio-2,ratio-1,10^k-1,10^k,10^k+1} on both sides of zero; x zones {UTC, fixed -30 s, fixed +5:45}; on each: split_seconds, lookup, convert, format %E*S, %E*f, %E#S/%E#f for # in {0,1,2,3,6,9,12,14,15,16,18,19,25,33,34,100}; parse (via %s and via %Y-%m-%d %H:%M:%S) into {int64/int32/int16/int8 s, int8/int16/int32/int64 min, int32/int64 h, int64 days} for every second within +-2 h of the epoch and within +-(2 units+2) of both limits of each target; class = duration x sign x multiple/non-multiple x in/out of range",
+    "duration panel {int64 ns/us/ms/(1/3 s)/(1/60 s)/fs; ticks of 2.5 s (int64) and 1.5 s (int32), every count in +-20000 and at the int32 limits; int64 s; int32 min, h; int16 s, min; int8 s, min}: EVERY value of the int8/int16 representations; [-1e5,1e5] and both limits -+1000 for int32; for int64 sub-second reps whole seconds {-2,-1,0,1,+-59,+-60,+-3599..3601,+-86400,+-2^31, limits -+2..4} x remainders {0,1,2,ratio/2-1..+1,ratio-2,ratio-1,10^k-1,10^k,10^k+1} on both sides of zero; x zones {UTC, fixed -30 s, fixed +5:45}; on each: split_seconds, lookup, convert, format %E*S, %E*f, %E#S/%E#f for # in {0,1,2,3,6,9,12,14,15,16,18,19,25,33,34,100}; parse (via %s and via %Y-%m-%d %H:%M:%S) into {int64/int32/int16/int8 s, int8/int16/int32/int64 min, int32/int64 h, int64 days} for every second within +-2 h of the epoch and within +-(2 units+2) of both limits of each target; class = duration x sign x multiple/non-multiple x in/out of range",
     "128-bit floor division is the oracle: second = floor(count*num/den), remainder >= 0, fractional digits truncated (never rounded); parse into a coarse target = floor(sec/Num) if it fits the representation, otherwise false.",
     ["C18:int64-ns:neg-nonmultiple", "C18:int8-s:neg-multiple", "C18:int64-third:neg-nonmultiple", "C18:parse:int32-h:neg-nonmultiple", "C18:parse:int8-min:out-of-range", "C18:parse:int16-s:out-of-range"],
     "Trusted base: ref_civil.h; parse into sub-second targets near their limits is excluded (documented TODO #199; the property restricts itself to whole seconds or coarser).",
